@@ -213,7 +213,7 @@ def main(run: Run):
     run.assumptions.append("response_relay assumes unselected subordinates keep ack/err/rty/stall low (stated in the property)")
     run.functions["amaranth_soc.wishbone.bus.Decoder.elaborate"] = "per-configuration (bounded: geometry, feature subsets, window sets), all inputs"
     run.functions["amaranth_soc.wishbone.bus.Decoder.add"] = "exercised (refusals counted); window ranges taken from bus.memory_map.windows()"
-    run_configs(run, __name__, cfgs)
+    run_configs(run, __name__, cfgs, must_accept=True)      # every generated window set fits by construction
     from . import patterns_l1
     patterns_l1.add_to(run)
     from . import busadd_l1
